@@ -66,6 +66,12 @@ def rand_spec(rng, family=None, tiles=True, empties=True):
         v = rng.choice(vs)
         spec["tiles"] = {v: rng.randint(1, ext[v] + 1)}
         spec["order"] = tile_order(rng, order, spec["tiles"])
+        if rng.random() < 0.35:
+            # the same tiling written as `tensor / parts` after bringing the rank to the top (the tile size then
+            # comes from the declared extent of the swizzled tensor's top rank)
+            parts = rng.randint(1, 4)
+            spec["div"] = {v: parts}
+            spec["tiles"] = {v: (ext[v] + parts - 1) // parts}
     if rng.random() < 0.3:
         spec["style"] = "leader-follower"
     return spec
@@ -158,7 +164,15 @@ def build(spec, fmts=None, zinit=None):
             t = Tensor.fromUncompressed(rank_ids=ids, root=spec["vals"][name], shape=shape, name=name)
         lv = list(idx)
         for v, size in spec["tiles"].items():
-            if v in idx:
+            if v in idx and v in spec.get("div", {}) and not spec.get("noshape"):
+                front = [v] + [x for x in lv if x != v]
+                if front != lv:
+                    t = t.swizzleRanks([rid(x) for x in front])
+                    lv = front
+                t = t / spec["div"][v]
+                lv[0:1] = [v + "1", v + "0"]
+                t.setRankIds([rid(x) for x in lv])
+            elif v in idx:
                 t = t.splitUniform(size, rankid=rid(v))
                 i = lv.index(v)
                 lv[i:i + 1] = [v + "1", v + "0"]
